@@ -156,8 +156,8 @@ func init() {
 		}
 	})
 	control(Control{ID: "c05-stale-stack-pointer", Prop: "C05", File: "extensions/omniv21/fileformat/flatfile/hierarchyReader.go",
-		Old: "\tcur = r.shrinkStack()\n\tif cur.curChild < len(cur.recDecl.ChildDecls())-1 {\n\t\tcur.curChild++\n\t\tr.growStack(stackEntry{recDecl: cur.recDecl.ChildDecls()[cur.curChild]})\n",
-		New: "\tcur = r.shrinkStack()\n\tif cur.curChild < len(cur.recDecl.ChildDecls())-1 {\n\t\tr.growStack(stackEntry{recDecl: cur.recDecl.ChildDecls()[cur.curChild+1]})\n\t\tcur.curChild++\n",
+		Old:  "\tcur = r.shrinkStack()\n\tif cur.curChild < len(cur.recDecl.ChildDecls())-1 {\n\t\tcur.curChild++\n\t\tr.growStack(stackEntry{recDecl: cur.recDecl.ChildDecls()[cur.curChild]})\n",
+		New:  "\tcur = r.shrinkStack()\n\tif cur.curChild < len(cur.recDecl.ChildDecls())-1 {\n\t\tr.growStack(stackEntry{recDecl: cur.recDecl.ChildDecls()[cur.curChild+1]})\n\t\tcur.curChild++\n",
 		Rule: "R05h", Substr: "HierarchyReader).recNext", Why: "the parent's child cursor is advanced through a pointer taken before the stack grew"})
 	control(Control{ID: "c13-pooled-buffer-kept", Prop: "C13", File: "extensions/omniv21/fileformat/edi/reader2.go",
 		Old: "func (r *NonValidatingReader) Read() (RawSeg, error) {\n", New: "var scanBufPool sync.Pool\n\nfunc (r *NonValidatingReader) recycleBuf() {\n\tscanBufPool.Put(r.rawSeg.Elems)\n}\n\nfunc (r *NonValidatingReader) Read() (RawSeg, error) {\n",
